@@ -344,6 +344,8 @@ mutual
 
   /-- `Parser.parseRegex()`; `none` is the typed nil. -/
   def parseRegex : P (Option Expr) := do
+    -- `if p.s.n > 0 { return nil, nil }`: no look-ahead in the rune reader while a token is pushed back
+    if (← get).n > 0 then return none
     let c0 ← peekRune
     if isWhitespace c0 then consumeWhitespace
     let c ← peekRune
